@@ -500,12 +500,15 @@ def gen_dtc_dop(g, n, hl):
     inheriting DOP defines itself and therefore is not inherited); the DTC-DOPs referred to are declared before or behind it"""
     rng = g.rng
     codes = rng.sample(range(1, 1 << min(n, 16)), 7)
+    # 25 %: LINEAR compu method, coded value x -> trouble code a * x + b (every DTC-DOP of the document: the DTCs carry the physical
+    # trouble code and are shared through DTC-REF / LINKED-DTC-DOPS); `codes` are the coded values, the DTCs get their images
+    a, b = (rng.choice([2, 3, 5, 16]), rng.choice([0, 0, 1, 7])) if rng.random() < 0.25 else (1, 0)
 
     def mk(cs):
-        return [(c, g.name("DTC")) for c in cs]
+        return [(a * c + b, g.name("DTC")) for c in cs]
 
     def dd(dtcs, **kw):
-        return D.DtcDop(D.Std("A_UINT32", n, None, hl), "A_UINT32", D.Identical(), dtcs, **kw)
+        return D.DtcDop(D.Std("A_UINT32", n, None, hl), "A_UINT32", D.Identical() if (a, b) == (1, 0) else D.Linear(b, a, 1), dtcs, **kw)
 
     if rng.random() >= 0.4:
         return dd(mk(codes[:3]))
@@ -1345,17 +1348,20 @@ def enum_dtc_sources():
     DTC-DOP; LINKED-DTC-DOPS (inherit all / one NOT-INHERITED / a local DTC with the short name of a library DTC, which then is
     not inherited / no own DTC at all / two linked DTC-DOPs whose DTCs clash by short name / a chain of two links with
     NOT-INHERITED on either level / linked + DTC-REF) x the DTC-DOPs referred to declared in front of or behind their user (every
-    combination along a chain) x coded type 8 bit / 16 bit / 24 bit low-high.  Yields (composite, codes), codes = every trouble
+    combination along a chain) x coded type 8 bit / 16 bit / 24 bit low-high x compu method IDENTICAL / LINEAR 2x / LINEAR 3x + 1
+    (coded value x, trouble code a * x + b: the DTCs carry the PHYSICAL trouble code).  Yields (composite, codes), codes = every trouble
     code that occurs anywhere in the document (the described ones are D.effective_dtcs of the DTC-DOP of `d`)"""
     import itertools
     n = 0
-    for bits, hl in ((8, None), (16, None), (24, False)):
+    # x compu method IDENTICAL / LINEAR (trouble code = a * coded value + b: 2x — the trouble code of DTC_A is the coded value of DTC_B —
+    # and 3x + 1 — no trouble code is a coded value of a DTC, the largest 8-bit one does not fit the coded type's width any more)
+    for (bits, hl), (a, b) in itertools.product(((8, None), (16, None), (24, False)), ((1, 0), (2, 0), (3, 1))):
         sh = bits - 8
 
         def dd(dtcs, **kw):
-            return D.DtcDop(D.Std("A_UINT32", bits, None, hl), "A_UINT32", D.Identical(), dtcs, **kw)
+            return D.DtcDop(D.Std("A_UINT32", bits, None, hl), "A_UINT32", D.Identical() if (a, b) == (1, 0) else D.Linear(b, a, 1), dtcs, **kw)
 
-        A, B, C, E, F = [((0x11 * (i + 1)) << sh | (i + 1 if sh else 0), nm) for i, nm in enumerate(["DTC_A", "DTC_B", "DTC_C", "DTC_E", "DTC_F"])]
+        A, B, C, E, F = [(a * ((0x11 * (i + 1)) << sh | (i + 1 if sh else 0)) + b, nm) for i, nm in enumerate(["DTC_A", "DTC_B", "DTC_C", "DTC_E", "DTC_F"])]
         L = D.LinkedDtcDop
         shapes = {
             "own": lambda o: dd([A, B]),
@@ -1376,7 +1382,7 @@ def enum_dtc_sources():
                 o = tuple(o) + (None,) * (2 - len(o))
                 n += 1
                 c = D.Composite(f"DS{n}", "request", [D.sid(), D.value("d", mk(o)), D.value("y", D.u8())])
-                c.meta = {"dtc-source:" + tag: 1}
+                c.meta = {"dtc-source:" + tag + ("" if (a, b) == (1, 0) else f"/linear:{a}x+{b}"): 1}
                 yield c, [x[0] for x in (A, B, C, E, F)]
 
 
